@@ -20,6 +20,7 @@ def handle (l : Line) : Option Verdict :=
       | none => .bad "trunc outs"
   | "c04" => some .ok      -- harness/ops_c04.c: judged by the C-side predicate p_safe (child exit status)
   | "sink" => some .ok
+  | "sinkok" => some .ok    -- C05 under a faulty sink: p_close_ok_implies_file
   | "abort" => some .ok
   | _ => none
 
